@@ -23,6 +23,7 @@ type Env struct {
 	pkg      *packages.Package
 	inOld    bool
 	bound    map[string]Val
+	gsuf     string // ghost-name suffix (cache context) for evaluating a callee's contract
 }
 
 func (fc *FCtx) newEnv(st, old *State, pos token.Pos) *Env {
@@ -69,18 +70,19 @@ func (fc *FCtx) resolveSpecType(name string, pkg *packages.Package) (*Sort, type
 	case "Store":
 		return fc.U.StoreSort(), nil
 	}
+	if fc.E.cs.OpaqueSorts[name] {
+		return fc.U.opaque(name), nil
+	}
 	tv, err := types.Eval(fc.E.fset, pkg.Types, token.NoPos, name)
 	if err != nil {
 		// try imports of the package by name qualifier
 		if k := strings.Index(name, "."); k > 0 {
 			q := name[:k]
 			q = strings.TrimLeft(q, "[]*")
-			for _, imp := range pkg.Types.Imports() {
-				if imp.Name() == q {
-					tv2, err2 := types.Eval(fc.E.fset, imp, token.NoPos, strings.Replace(name, q+".", "", 1))
-					if err2 == nil {
-						return fc.U.SortOf(tv2.Type), tv2.Type
-					}
+			if imp := fc.importByName(pkg, q); imp != nil {
+				tv2, err2 := types.Eval(fc.E.fset, imp, token.NoPos, strings.Replace(name, q+".", "", 1))
+				if err2 == nil {
+					return fc.U.SortOf(tv2.Type), tv2.Type
 				}
 			}
 		}
@@ -120,6 +122,11 @@ func (fc *FCtx) lookupName(name string, env *Env) (Val, bool) {
 					}
 				}
 			}
+		}
+	}
+	if env.gsuf != "" {
+		if v, ok := st.ghost[name+env.gsuf]; ok {
+			return v, true
 		}
 	}
 	if v, ok := st.ghost[name]; ok {
@@ -293,6 +300,9 @@ func (fc *FCtx) specEval(n *SNode, env *Env) Val {
 			return Val{T: fmt.Sprintf("(select %s %s)", mpVal(b), i.T), S: b.S.Elem, GoT: elemType(b.GoT)}
 		case KStore:
 			return Val{T: fmt.Sprintf("(select %s %s)", b.T, fc.toBz(i)), S: fc.U.BzSort()}
+		}
+		if isBz(b.S) {
+			return Val{T: fmt.Sprintf("(bz_at %s %s)", b.T, i.T), S: SInt}
 		}
 		oos("spec: indexing %s", b.S.Name)
 	case "call":
@@ -469,9 +479,15 @@ func (fc *FCtx) specCall(n *SNode, env *Env) Val {
 		case KStr:
 			return Val{T: app("str_len", args[0].T), S: SInt}
 		}
+		if isBz(args[0].S) {
+			return Val{T: app("bz_len", args[0].T), S: SInt}
+		}
 		oos("spec: len of %s", args[0].S.Name)
 	case "cap":
 		evalArgs()
+		if isBz(args[0].S) {
+			return Val{T: app("bz_cap", args[0].T), S: SInt}
+		}
 		return Val{T: slCap(args[0]), S: SInt}
 	case "abs":
 		evalArgs()
